@@ -38,7 +38,7 @@ theorem rtxLoop_window {B : Type} (s : St) (allow : B → Int → Bool × B) (i 
         · cases hd
         · split at hd
           · cases hd
-          · rename_i _ _ hwin
+          · rename_i _ hwin
             simp only [Bool.and_eq_true, Bool.not_eq_true', not_and] at hwin
             obtain ⟨e1, e2⟩ := ha
             have hlen : ((rtxUpd s c).len : Int) = c.len := rfl
